@@ -54,6 +54,10 @@ def cases(ctx):
                 # the near miss with an ordinary value, with an empty value only, assigned and then reset, reset and then assigned
                 form = rnd.choice([f'{nm}=x\n', f'{nm}=\n', f'{nm}=x\n{nm}=\n', f'{nm}=\n{nm}=x\n', f'{nm}=""\n', f'{nm}= \n'])
                 out.append((ty, base + pre + form + 'Zzz=1\n', nm, G.SEC[ty]))
+                if rnd.random() < 0.3:
+                    # the section that holds the key is opened again later with nothing (or only a comment) in it: still the same section
+                    again = rnd.choice(['[' + G.SEC[ty] + ']\n', '[Service]\nRestart=no\n[' + G.SEC[ty] + ']\n# Foo=1\n', '[' + G.SEC[ty] + ']\n\n[Install]\n'])
+                    out.append((ty, base + pre + form + again, nm, G.SEC[ty]))
         # [Quadlet] section
         for nm in ['defaultdependencies', 'DefaultDependency', 'Foo', 'Image']:
             for val in ['1', '', '1\n' + nm + '=']:
@@ -66,6 +70,7 @@ def cases(ctx):
                 if not G.BASE[ty]:
                     # a unit that is valid without any key of its own (otherwise another error may legitimately come first)
                     layouts += [q, hdr + q, q + hdr, '[Service]\nRestart=always\n' + q, '[Unit]\nDescription=d\n' + q + '[Install]\nWantedBy=default.target\n']
+                layouts += [q + base + '[Quadlet]\n', q + '[Quadlet]\n;c\n' + base]
                 for layout in layouts:
                     out.append((ty, layout, nm, 'Quadlet'))
         # every documented key on its own: never an UnknownKey rejection
